@@ -33,10 +33,10 @@ theorem cmerge_spec {T : Tun} (hT : TunOK T) (F : SecFns ρ) {hra : Bool} {h : N
     intro p; split <;> simp [cntP_sortInts, e1]
   have ct : ∀ p, cntP p (if o.sorted = true then o.items else sortInts o.items) = cntP p o.items := by
     intro p; split <;> simp [cntP_sortInts]
-  have hcnt : ∀ p, cntP p (if (if c2.sorted = true then c2.items else sortInts c2.items).isEmpty = true then
-        (if o.sorted = true then o.items else sortInts o.items)
-      else if c2.hra = true then mergeRuns (if o.sorted = true then o.items else sortInts o.items) (if c2.sorted = true then c2.items else sortInts c2.items)
-      else mergeRuns (if c2.sorted = true then c2.items else sortInts c2.items) (if o.sorted = true then o.items else sortInts o.items))
+  generalize (if c2.sorted = true then c2.items else sortInts c2.items) = mine at hmine cm
+  generalize (if o.sorted = true then o.items else sortInts o.items) = theirs at htheirs ct
+  have hcnt : ∀ p, cntP p (if mine.isEmpty = true then theirs
+      else if c2.hra = true then mergeRuns theirs mine else mergeRuns mine theirs)
       = cntP p c.items + cntP p o.items := by
     intro p
     split
@@ -46,7 +46,7 @@ theorem cmerge_spec {T : Tun} (hT : TunOK T) (F : SecFns ρ) {hra : Bool} {h : N
       rw [ct, this]; omega
     · split <;> rw [cntP_mergeRuns, cm, ct] <;> omega
   refine ⟨⟨hc2.lg, hc2.hraEq, hc2.ns, hc2.ss, fun _ => ?_⟩, ?_, ?_, hcnt⟩
-  · show Sorted (if _ then _ else _)
+  · show Sorted (if mine.isEmpty = true then theirs else if c2.hra = true then mergeRuns theirs mine else mergeRuns mine theirs)
     split
     · exact htheirs
     · split
@@ -207,7 +207,7 @@ theorem merge_SInv {T : Tun} (hT : TunOK T) (F : SecFns ρ) (s o : Sketch ρ) (a
     · have := he3 hex
       rw [List.drop_eq_nil_of_le (by omega)]; exact AllNE_nil
   have hcne : AllNE cs := ml.ne (ho.ne hn0) hdrop
-  have hent : (match cs with | c :: _ => c.entered | [] => []) = entered0 o ++ entered0 s := by
+  have hent : entered0L cs = entered0 o ++ entered0 s := by
     have := ml.ent hone
     have hs1h : s1.compactors.head?.map (·.entered) = s.compactors.head?.map (·.entered) := by
       rw [he1]; cases hsc : s.compactors with
@@ -224,7 +224,7 @@ theorem merge_SInv {T : Tun} (hT : TunOK T) (F : SecFns ρ) (s o : Sketch ρ) (a
         | nil => simp at this
         | cons c0 ct =>
           simp at this
-          simp [entered0, hoc, hsc, this]
+          simp [entered0, entered0L, hoc, hsc, this]
   let s2 : Sketch ρ := { s1 with minItem := optMinO s.minItem o.minItem, maxItem := optMaxO s.maxItem o.maxItem, compactors := cs, n := s.n + o.n, maxNomSize := sumCap T cs, numRetained := sumItems cs }
   have hcsnn : cs ≠ [] := by
     intro e; have := ml.len; rw [e] at this
@@ -236,11 +236,11 @@ theorem merge_SInv {T : Tun} (hT : TunOK T) (F : SecFns ρ) (s o : Sketch ρ) (a
       fun _ => hcne, ?_, ?_, ?_, ?_⟩
     · show s.n + o.n = totalW cs; rw [ml.tw, hs1tw, ho.tw]
     · intro h0; exfalso; simp [s2] at h0; exact hn0 h0.2
-    · show s.n + o.n = (match cs with | c :: _ => c.entered | [] => []).length
+    · show s.n + o.n = (entered0L cs).length
       rw [hent, List.length_append, ← hs.ent, ← ho.ent]; omega
-    · show IsMin (optMinO s.minItem o.minItem) (match cs with | c :: _ => c.entered | [] => [])
+    · show IsMin (optMinO s.minItem o.minItem) (entered0L cs)
       rw [hent]; exact IsMin_append hs.mn ho.mn
-    · show IsMax (optMaxO s.maxItem o.maxItem) (match cs with | c :: _ => c.entered | [] => [])
+    · show IsMax (optMaxO s.maxItem o.maxItem) (entered0L cs)
       rw [hent]; exact IsMax_append hs.mx ho.mx
   have hent2 : entered0 s2 = entered0 o ++ entered0 s := hent
   change (if s2.numRetained ≥ s2.maxNomSize then some (s2.compress T F acc) else some (s2, acc)) = some r at hr
